@@ -343,8 +343,9 @@ def extend(rep, pid, tier, r):
         shape = case['shape']
         for dim in range(len(shape)):
             rep.evaluations += 1
-            region = 'wrapper:' + SM.subset_region(case, dim) + (':oblique' if case.get('oblique') else '') + \
-                (':hdr-' + case['hdr_kind'] if case.get('hdr_kind') else '')
+            region = 'wrapper:' + SM.subset_region(case, dim) + (':oblique' if case.get('oblique') else '')
+            if case.get('hdr_kind'):
+                rep.count('wrapper/hdr-' + case['hdr_kind'])
             rep.count(region)
             rep.nontriv([case, dim])
             rep.sample({'suite': 'wrapper', 'case': case, 'dim': dim}, cap=2)
